@@ -530,8 +530,8 @@ def obligations(tier):
         obs.append(GWFactory(n=2, m=2, t=1, fafreq=fafreq, alpha=alpha))
     for fam in FAMILIES:
         for n, t, S in ([(3, 1, [2, 0]), (2, 2, [1])] if tier == "quick" else [(3, 1, [2, 0]), (2, 2, [1]), (3, 2, [0, 1]), (4, 1, [3, 0, 1]), (3, 1, [1, 2])]):
-            if FAMILIES[fam][3] in ("ocs", "mgr", "meh", "l2") and (n > 3 or (tier == "quick" and t > 1)):
-                continue
+            if FAMILIES[fam][3] in ("ocs", "mgr", "meh", "l2") and (n > 3 or (tier == "quick" and t > 1) or (n == 3 and S != [2, 0])):
+                continue      # norm-valued criteria: the rescaling identity times out beyond these sizes
             h = Latent(fam=fam, n=n, t=t, subset=S)
             h.weight = 20 * n * t
             obs.append(h)
